@@ -632,6 +632,34 @@ func famDischarge(r *Rng, o *Out, tier string) {
 			}
 		}
 	}
+	// long condition lists: the third party recovers EVERY condition the author attached, also beyond any
+	// internal pre-allocation bound of the decoder (1024), with the decisive condition last
+	for _, nc := range []int{1023, 1024, 1025, 1500} {
+		kb := r.Bytes(32)
+		cs := make([]macaroon.Caveat, nc)
+		for i := range cs {
+			cs[i] = &macaroon.ValidityWindow{NotBefore: int64(i), NotAfter: int64(1) << 40}
+		}
+		cs[nc-1] = &macaroon.ValidityWindow{NotBefore: 0, NotAfter: 1}
+		c3, err := macaroon.NewCaveat3P(kb, "https://long.example", cs...)
+		if err != nil {
+			continue
+		}
+		res := guard(func() string {
+			got, dm, err := macaroon.DischargeTicket(kb, "https://long.example", c3.Ticket)
+			if err != nil {
+				return "err:" + err.Error()
+			}
+			return "ok " + sxCavs(got) + " " + hx(mustEnc(dm)) + " " + hx(dm.Nonce.Rnd)
+		})
+		o.count(fmt.Sprintf("ticket.long.%d", nc))
+		if strings.HasPrefix(res, "ok ") {
+			parts := strings.Split(res, " ")
+			o.emit(fmt.Sprintf("(tok.discharge %s %s %s %s 1)", hx(kb), hs("https://long.example"), hx(c3.Ticket), parts[len(parts)-1]), strings.Join(parts[:len(parts)-1], " "))
+		} else {
+			o.emit(fmt.Sprintf("(tok.discharge %s %s %s %s 1)", hx(kb), hs("https://long.example"), hx(c3.Ticket), hx(make([]byte, 16))), res)
+		}
+	}
 	// sealing the same content twice never yields the same bytes
 	ka := r.Bytes(32)
 	seen := map[string]bool{}
@@ -749,6 +777,38 @@ func famBind(r *Rng, o *Out, tier string) {
 				} else {
 					o.emit("(const sound)", "sound")
 				}
+			}
+		}
+		// a discharge that already carries a SHORTER binding caveat (a prefix binding: the empty one matches every
+		// token, one byte of the root's id matches the whole tree) and is then bound to a node with Bind: the full
+		// binding must still be added and must still hold
+		for k := 0; k < 6; k++ {
+			bi, pi := r.Intn(len(hs)), r.Intn(len(hs))
+			_, d, err := macaroon.DischargeTicket(ka, "https://auth.example", it.tp.ticket)
+			if err != nil {
+				panic(err)
+			}
+			rootM, _ := macaroon.Decode(hs[0].bytes)
+			rootID := sha256.Sum256(rootM.Tail)
+			pre := macaroon.BindToParentToken(rootID[:r.Intn(3)])
+			if r.Chance(1, 4) {
+				nodeM, _ := macaroon.Decode(hs[bi].bytes)
+				nodeID := sha256.Sum256(nodeM.Tail)
+				pre = macaroon.BindToParentToken(nodeID[:1+r.Intn(15)]) // a strict prefix of the very id Bind will add
+			}
+			if d.Add(&pre) != nil || d.Bind(hs[bi].bytes) != nil {
+				continue
+			}
+			obs := emitVerify(o, key, hs[pi].bytes, with(mustEnc(d)), nil)
+			if obs == "err:unmodelled" {
+				continue
+			}
+			want := isDescendant(hs, pi, bi)
+			o.count(fmt.Sprintf("prebound.len%d.want%v", len(pre), want))
+			if strings.HasPrefix(obs, "ok") != want {
+				o.emit("(const sound)", fmt.Sprintf("prefix-prebound-wrong:bound=%d,presented=%d,accepted=%v", bi, pi, !want))
+			} else {
+				o.emit("(const sound)", "sound")
 			}
 		}
 		// several bindings: all must hold
@@ -973,6 +1033,37 @@ func famAttest(r *Rng, o *Out, tier string) {
 				ds[0], ds[1] = ds[1], ds[0]
 			}
 			cases = append(cases, cas{fmt.Sprintf("two3p.attackerFirst=%v", attackerFirst), mustEnc(t2), ds, true, trusting})
+		}
+		// 8. the trusted party's ticket re-used NEXT TO the genuine caveat: the bearer appends a second third-party
+		// caveat that copies the ticket bytes but whose VerifierKey seals a key the bearer knows (none), presents the
+		// genuine discharge (own honest identity) AND a hand-signed proof with the same key-id carrying a forged
+		// identity; whether a discharge is trusted depends on the caveat it discharges, not on the ticket alone
+		for _, evilLoc := range []string{"https://attacker.example", tpLoc} {
+			t2, _ := macaroon.New(r.Bytes(8), loc, key)
+			itT, _ := newTP(kaTrusted, tpLoc)
+			t2.Add(itT.cav)
+			t2b, _ := macaroon.Decode(mustEnc(t2))
+			if t2b.Add(&macaroon.Caveat3P{Location: evilLoc, Ticket: append([]byte{}, itT.tp.ticket...)}) != nil {
+				continue // (a second caveat for the same location is refused by Add)
+			}
+			_, dT, _ := macaroon.DischargeTicket(kaTrusted, tpLoc, itT.tp.ticket)
+			dT.Add(att())
+			// a proof nonce for the same key-id: take a fresh genuine proof's nonce, sign by hand under the empty key
+			_, shell, _ := macaroon.DischargeTicket(kaTrusted, tpLoc, itT.tp.ticket)
+			d2, _ := macaroon.Decode(mustEnc(shell))
+			d2.Location = pick(r, []string{tpLoc, evilLoc})
+			forged := auth.FlyioUserID(uint64(uid) + 500000)
+			fe, _ := encOne(&forged)
+			d2.UnsafeCaveats.Caveats = []macaroon.Caveat{&forged}
+			d2.Tail = finalizeSig(hmacSum(hmacSum(nil, d2.Nonce.MustEncode()), fe))
+			ds := [][]byte{mustEnc(dT), mustEnc(d2)}
+			if r.Bool() {
+				ds[0], ds[1] = ds[1], ds[0]
+			}
+			cases = append(cases, cas{"copiedticket.nextToGenuine." + map[bool]string{true: "sameloc", false: "otherloc"}[evilLoc == tpLoc], mustEnc(t2b), ds, false, trusting})
+			// (under a trusting map the genuine discharge's honest identity may surface - or the whole verification is
+			// refused because the copied caveat's key does not match the ticket's, when the forged discharge names the
+			// trusted location; the forged identity must never surface: that is the uid+500000 test below)
 		}
 		for _, c := range cases {
 			tms := []string{"nil", "empty", "wrongloc", "wrongkey", "several", "right", "shortkey"}
